@@ -252,13 +252,14 @@ impl ProgressStyle {
                     alt_style,
                 } => {
                     buf.clear();
+                    let mut marker = false;
                     if let Some(tracker) = self.format_map.get(key.as_str()) {
                         tracker.write(state, &mut TabRewriter(&mut buf, self.tab_width));
                     } else {
                         match key.as_str() {
                             "wide_bar" => {
                                 wide = Some(WideElement::Bar { alt_style });
-                                buf.push('\x00');
+                                marker = true;
                             }
                             "bar" => buf
                                 .write_fmt(format_args!(
@@ -273,7 +274,7 @@ impl ProgressStyle {
                             "spinner" => buf.push_str(self.current_tick_str(state)),
                             "wide_msg" => {
                                 wide = Some(WideElement::Message { align });
-                                buf.push('\x00');
+                                marker = true;
                             }
                             "msg" => buf.push_str(state.message.expanded()),
                             "prefix" => buf.push_str(state.prefix.expanded()),
@@ -359,6 +360,13 @@ impl ProgressStyle {
                             _ => (),
                         }
                     };
+
+                    // A `\x00` marks the place of the wide element in the line: text that happens
+                    // to contain one must not be taken for it
+                    buf.retain(|c| c != '\x00');
+                    if marker {
+                        buf.push('\x00');
+                    }
 
                     match width {
                         Some(width) => {
@@ -489,7 +497,8 @@ impl Template {
     fn from_str_with_tab_width(s: &str, tab_width: usize) -> Result<Self, TemplateError> {
         use State::*;
         let (mut state, mut parts, mut buf) = (Literal, vec![], String::new());
-        for c in s.chars() {
+        // `\x00` is reserved: it marks the place of the wide element while a line is put together
+        for c in s.chars().filter(|&c| c != '\x00') {
             let new = match (state, c) {
                 (Literal, '{') => (MaybeOpen, None),
                 (Literal, '\n') => {
